@@ -154,7 +154,8 @@ def helper_correspondence(ck):
                 ck.corr_agree("helpers")
             else:
                 ck.corr_diverge("helpers", {"n": n, "q": q, "compiled_c": r, "model": m, "floor": py})
-                if r is not None and r != py:
+                if r is not None and r != py and not any(v["key"].startswith("helper-value:exo_floor_%s" % ("div" if r[0] != py[0] else "mod"))
+                                                         for v in ck.violations):
                     ck.violation("helper-value:exo_floor_%s:n=%d:q=%d" % ("div" if r[0] != py[0] else "mod", n, q),
                                  {"helpers_c": helpers, "n": n, "q": q, "c_result": r, "floor_div_mod": py},
                                  "the compiled helper does not compute floor division / modulus")
@@ -209,10 +210,11 @@ def compile_run(job):
     return res
 
 
-def select_for_search(ck, recs, limit):
-    """feature-weighted choice of variants to compile (at most 3 per generated program)"""
+def select_for_search(ck, recs, limit, suspects=()):
+    """feature-weighted choice of variants to compile (at most 3 per generated program); variants on which the
+    model and the real backend disagreed come first"""
     def score(r):
-        s = 0.0
+        s = 1000.0 if r["tag"] in suspects else 0.0
         for p in r.get("procs", []):
             f = p.get("feat") or {}
             s += 3 * min(f.get("alloc", 0), 3) + 4 * f.get("alloc_in_else", 0) + 3 * min(f.get("window", 0), 3) \
@@ -235,8 +237,8 @@ def select_for_search(ck, recs, limit):
     return out
 
 
-def san_search(ck, recs, limit):
-    sel = select_for_search(ck, recs, limit)
+def san_search(ck, recs, limit, suspects=()):
+    sel = select_for_search(ck, recs, limit, suspects)
     d = common.scratch_dir("c08_san")
     jobs = [(r, d / r["tag"].replace(".", "_")) for r in sel]
     with ThreadPoolExecutor(max_workers=NPROC) as ex:
@@ -313,7 +315,7 @@ def run(ck: common.Check):
     model_ok = (COQ / ENGINE / "ModelCanon.vo").exists() and ok_gen
 
     # ---- generated + scheduled procedures, observed on the real backend
-    n_prog = ck.n(110, 1500)
+    n_prog = ck.n(90, 1500)
     recs = run_workers(ck, n_prog, n_sched=2, n_inputs=ck.n(4, 6))
     ck.log("generation + observation of the real backend: %.1fs" % (time.time() - t0))
     st = {}
@@ -334,15 +336,31 @@ def run(ck: common.Check):
         ck.broken_obligation("generator-collapsed", "only %d of %d variants compile" % (len(okrecs), len(recs)))
 
     # ---- 2. correspondence
+    suspects = set()
     if model_ok:
-        correspondence(ck, okrecs)
+        suspects = correspondence(ck, okrecs)
         helper_correspondence(ck)
-    else:
+    # direct check of the real MemoryAnalysis output (independent of model and translated used_s)
+    nstat = 0
+    for r in okrecs:
+        for p in r["procs"]:
+            ck.case("real-output-free-check", (r["tag"], p["name"]), nontrivial=bool((p.get("feat") or {}).get("alloc")),
+                    tag="allocs=%d" % min((p.get("feat") or {}).get("alloc", 0), 4))
+            if p.get("static_free"):
+                nstat += 1
+                suspects.add(r["tag"])
+                ck.corr_diverge("real-output-free-check", {"tag": r["tag"], "proc": p["name"], "schedule": r.get("sched", []),
+                                                           "findings": p["static_free"][:5]})
+            else:
+                ck.corr_agree("real-output-free-check")
+    if nstat:
+        ck.log("real MemoryAnalysis output violates the Free discipline in %d procedures" % nstat)
+    if not model_ok:
         ck.log("model does not build: correspondence skipped, going straight to the search")
 
     ck.log("correspondence done: %.1fs" % (time.time() - t0))
     # ---- 3. failing-input search against the real generated C (cheap enough for quick)
-    san_search(ck, okrecs, ck.n(48, 700))
+    san_search(ck, okrecs, ck.n(48, 700), suspects)
     ck.log("sanitizer search done: %.1fs" % (time.time() - t0))
 
     # ---- 4. evidence
@@ -400,7 +418,7 @@ def correspondence(ck, okrecs):
             cases.append((dv["kind"].replace("_", "-"), dv["kind"], dv["term"], dv["real"],
                           {"tag": r["tag"], "text": dv.get("text"), "lit": dv["lit"]}))
     # ---- synthetic skeletons
-    for s in run_synth(ck, ck.n(450, 4000)):
+    for s in run_synth(ck, ck.n(360, 4000)):
         cases.append(("mem-synthetic", "mem", s["body"], s["mem_real"], {"tag": s["tag"], "malformed": s["malformed"], "err": s.get("mem_err")}))
         cases.append(("writes-synthetic", "writes", s["body"], s["writes_real"], {"tag": s["tag"], "malformed": s["malformed"]}))
     terms = []
@@ -412,12 +430,28 @@ def correspondence(ck, okrecs):
     model = eval_cases(ck, terms, "corr")
     wf = {"true": 0, "false": 0, "false_samples": []}
     wfw = {"true": 0, "false": 0, "false_samples": []}
+    suspects = set()
+    diverged_before = lambda st: ck.stream(st)["diverge"]
     nonlit = 0
     for (stream, kind, term, real, meta), m in zip(cases, model):
+        if suspects is not None:
+            pass
+        ndiv = diverged_before(stream)
+        try:
+            compare_one(ck, stream, kind, term, real, meta, m, wf, wfw)
+        finally:
+            if diverged_before(stream) > ndiv and isinstance(meta, dict) and str(meta.get("tag", "")).startswith("g"):
+                suspects.add(meta["tag"])
+    return finish_corr(ck, wf, wfw, suspects)
+
+
+def compare_one(ck, stream, kind, term, real, meta, m, wf, wfw):
+    nonlit = 0
+    if True:
         if m is None:
             ck.case(stream, term, nontrivial=False)
             ck.corr_diverge(stream, {"case": meta, "why": "model evaluation failed"})
-            continue
+            return
         if kind == "mem":
             wfflag, m = m[0], m[1:]
             if stream == "mem-analysis":
@@ -433,7 +467,7 @@ def correspondence(ck, okrecs):
                     # an exception the model does not represent (KeyError of mem_env etc.)
                     ck.stream(stream)["distribution"]["unmodelled-exception"] = ck.stream(stream)["distribution"].get("unmodelled-exception", 0) + 1
                     ck.corr_diverge(stream, {"case": meta, "why": "real code raised an exception outside the model", "model": m[:30]})
-                    continue
+                    return
                 ok = (m == real) or (m[0] < 0 and real[0] < 0 and ((m[0] == -2) == (real[0] == -2)))
             else:
                 ok = m == [0] + real
@@ -447,7 +481,7 @@ def correspondence(ck, okrecs):
             if m[0] != 0:
                 ck.case(stream, term, nontrivial=False)
                 ck.corr_diverge(stream, {"case": meta, "why": "model error", "model": m})
-                continue
+                return
             wfw["true" if m[1] else "false"] += 1
             if not m[1] and len(wfw["false_samples"]) < 5:
                 wfw["false_samples"].append(meta)
@@ -473,10 +507,14 @@ def correspondence(ck, okrecs):
                                                                          "writes_real": p["writes_real"], "n_free": p.get("n_free"), "heap": p.get("heap")}))
         else:
             if not meta.get("lit", True):
-                nonlit += 1
+                wf["nonlit"] = wf.get("nonlit", 0) + 1
             ck.case(stream, term, nontrivial=True, tag="tokens=%d" % min(len(real), 4) if kind.startswith("div") else None,
                     sample={"term": term[:200], "model": m[:30], "real": real[:30], "text": meta.get("text")})
             (ck.corr_agree(stream) if m == real else ck.corr_diverge(stream, {"case": meta, "term": term[:400], "model": m, "real": real}))
+
+
+def finish_corr(ck, wf, wfw, suspects):
+    nonlit = wf.get("nonlit", 0)
     ck.cov["hypotheses_on_real_procedures"] = {"wf_b_true": wf["true"], "wf_b_false": wf["false"], "wf_b_false_samples": wf["false_samples"],
                                                "wfw_b_true": wfw["true"], "wfw_b_false": wfw["false"], "wfw_b_false_samples": wfw["false_samples"],
                                                "non_literal_divisors": nonlit}
@@ -486,3 +524,4 @@ def correspondence(ck, okrecs):
         ck.log("stream %-18s cases %5d agree %5d diverge %d" % (name, s["cases"], s["agree"], s["diverge"]))
         if name != "sanitizer-search" and s["cases"] == 0:
             ck.broken_obligation("correspondence-empty:" + name, "no cases")
+    return suspects
